@@ -55,6 +55,8 @@ struct TxModel {
     /// rollback task at a timing-dependent moment, so the harness waits for it before the next
     /// scheduling decision.
     pending_wake: Option<usize>,
+    /// Set when a permit was dropped with an open transaction (rollback task spawned).
+    dropped_permit: bool,
     /// Effects of committed transactions in commit order: (writer, tx index).
     commit_order: Vec<(usize, usize)>,
     /// Bodies appended by each (writer, tx) in order.
@@ -84,6 +86,7 @@ impl TxModel {
         self.release(w);
         if held {
             self.pending_wake = self.holder;
+            self.dropped_permit = true;
         }
     }
     fn release(&mut self, w: usize) {
@@ -340,15 +343,43 @@ impl Property for C10Prop {
             let mut cancelled: Vec<usize> = vec![];
             let mut steps = 0;
             let mut stall = None;
+            let baseline_tasks = stepexec::alive_runtime_tasks();
+            let mut skip_runtime_turn = false;
             loop {
+                // A permit was dropped with an open transaction: its rollback runs in a task the
+                // store spawned. Whether that task or the next writer gets to run first is a
+                // schedule decision like any other: either the task runs to completion now, or the
+                // next activity is polled before the runtime gets a turn.
+                let dropped = std::mem::take(&mut model.borrow_mut().dropped_permit);
+                if dropped {
+                    if ctx::chance("rollback_task_first", 1, 2) {
+                        if !stepexec::drain_runtime_tasks(baseline_tasks, std::time::Duration::from_secs(10)).await {
+                            stall = Some("rollback task of a dropped permit never finished".into());
+                            break;
+                        }
+                    } else {
+                        ctx::probe("next_writer_polled_before_rollback_task");
+                        skip_runtime_turn = true;
+                    }
+                }
                 let pw = model.borrow_mut().pending_wake.take();
                 if let Some(h) = pw {
-                    if ex.is_alive(h) && !ex.runnable().contains(&h) && !ex.wait_for_wake(h).await {
+                    if !skip_runtime_turn && ex.is_alive(h) && !ex.runnable().contains(&h) && !ex.wait_for_wake(h).await {
                         stall = Some(format!("writer{h} (permit never released after an abort)"));
                         break;
                     }
+                    if skip_runtime_turn {
+                        model.borrow_mut().pending_wake = Some(h);
+                    }
                 }
-                match ex.step().await {
+                let stepped = if skip_runtime_turn && !ex.runnable().is_empty() {
+                    skip_runtime_turn = false;
+                    ex.step_without_runtime_turn().await
+                } else {
+                    skip_runtime_turn = false;
+                    ex.step().await
+                };
+                match stepped {
                     Ok(Step::Quiescent) => {
                         // The model knows whether a live writer has been handed the permit and is
                         // only waiting for a dropped permit's rollback task to release it.
